@@ -275,11 +275,12 @@ def _order_leak(merged):
     if n0 < 200 or n1 < 200:
         raise RuntimeError(f"order-leak clause not exercised: {n0} _sd lists with >= 2 real digests without decoys, {n1} with decoys (need 200 each)")
     hn0, hmo0, hn1, hmo1, hdl1 = (a.get(k, 0) for k in ("hn0", "hmo0", "hn1", "hmo1", "hdl1"))
-    if hn0 < 100 or hn1 < 100:
-        raise RuntimeError(f"order-leak clause not exercised inside disclosed values: {hn0} / {hn1} _sd lists with >= 2 real digests (need 100 each)")
-    bad = mo0 == n0 or mo1 == n1 or dl1 == n1 or hmo0 == hn0 or hmo1 == hn1 or hdl1 == hn1
-    return (not bad), (f"lists in the clear payload - without decoys: {n0} with >= 2 real digests, {mo0} in member order; with decoys: {n1}, {mo1} in member order, {dl1} with all decoys last; "
-                       f"lists inside disclosed values - without decoys: {hn0}, {hmo0} in member order; with decoys: {hn1}, {hmo1} in member order, {hdl1} with all decoys last")
+    nd1, hnd1 = a.get("nd1", 0), a.get("hnd1", 0)          # lists with >= 1 real digest and >= 1 decoy
+    if hn0 < 100 or hn1 < 100 or nd1 < 100 or hnd1 < 100:
+        raise RuntimeError(f"order-leak clause not exercised: inside disclosed values {hn0} / {hn1} _sd lists with >= 2 real digests, {nd1} / {hnd1} mixed lists (need 100 each)")
+    bad = mo0 == n0 or mo1 == n1 or dl1 == nd1 or hmo0 == hn0 or hmo1 == hn1 or hdl1 == hnd1
+    return (not bad), (f"lists in the clear payload - without decoys: {n0} with >= 2 real digests, {mo0} in member order; with decoys: {n1}, {mo1} in member order, {dl1} of {nd1} mixed lists with all decoys last; "
+                       f"lists inside disclosed values - without decoys: {hn0}, {hmo0} in member order; with decoys: {hn1}, {hmo1} in member order, {hdl1} of {hnd1} mixed lists with all decoys last")
 
 
 PLANS["C12"] = P(
